@@ -695,7 +695,24 @@ func (in *Interp) decodeRune(s *Str) Value {
 	if in.branch(tf.Cmp(OpUlt, b, tf.BV(8, 0x80))) {
 		return Tuple{IntV{tf.Resize(b, 32, false)}, IntV{tf.BV(64, 1)}}
 	}
-	in.unsupported("utf8.DecodeRuneInString on non-ASCII symbolic byte")
+	runeErr := Tuple{IntV{tf.BV(32, uint64(utf8.RuneError))}, IntV{tf.BV(64, 1)}}
+	// two-byte sequences: lead 0xC2..0xDF, continuation 0x80..0xBF
+	if in.branch(tf.Cmp(OpUlt, b, tf.BV(8, 0xc2))) {
+		return runeErr // continuation byte or overlong lead
+	}
+	if in.branch(tf.Cmp(OpUle, b, tf.BV(8, 0xdf))) {
+		if a.Len() < 2 {
+			return runeErr
+		}
+		b1 := a.ByteAt(tf, 1)
+		if in.branch(tf.And(tf.Cmp(OpUle, tf.BV(8, 0x80), b1), tf.Cmp(OpUle, b1, tf.BV(8, 0xbf)))) {
+			hi := tf.Bin(OpShl, tf.Bin(OpBAnd, tf.Resize(b, 32, false), tf.BV(32, 0x1f)), tf.BV(32, 6))
+			lo := tf.Bin(OpBAnd, tf.Resize(b1, 32, false), tf.BV(32, 0x3f))
+			return Tuple{IntV{tf.Bin(OpBOr, hi, lo)}, IntV{tf.BV(64, 2)}}
+		}
+		return runeErr
+	}
+	in.unsupported("utf8.DecodeRuneInString on a symbolic lead byte of a 3/4-byte sequence")
 	return nil
 }
 
